@@ -68,8 +68,36 @@ func c06Gen(rt *rapid.T) wProg {
 	n := rapid.IntRange(3, 16).Draw(rt, "nops")
 	for i := 0; i < n; i++ {
 		s := rapid.IntRange(0, len(p.Sess)-1).Draw(rt, "s")
+		sessOfUser := func(u int) int {
+			for hs := 1; hs < len(p.Sess); hs++ {
+				if p.Sess[hs] == u {
+					return hs
+				}
+			}
+			return -1
+		}
 		switch x := rapid.IntRange(0, 99).Draw(rt, "opk"); {
-		case x < 8:
+		case x < 3:
+			// a grant of exactly "N", the subscription removed, the user comes back
+			tgt := rapid.IntRange(1, 2).Draw(rt, "banned")
+			if hs := sessOfUser(tgt); hs > 0 {
+				p.Ops = append(p.Ops, wOp{K: "set", S: 0, T: "g0", A: "given", U: tgt, B: "N"})
+				if gPct(rt, 60) {
+					p.Ops = append(p.Ops, wOp{K: "del", S: 0, T: "g0", A: "sub", U: tgt})
+				} else {
+					p.Ops = append(p.Ops, wOp{K: "leave", S: hs, T: "g0", F: true})
+				}
+				p.Ops = append(p.Ops, wOp{K: "sub", S: hs, T: "g0", A: gPick(rt, []string{"", "JRWPS"}, "want")})
+			}
+		case x < 6:
+			// a second administrator (A and S, not O) tries his hand at the owner's grant
+			adm := rapid.IntRange(1, 2).Draw(rt, "admin")
+			if hs := sessOfUser(adm); hs > 0 {
+				p.Ops = append(p.Ops, wOp{K: "set", S: 0, T: "g0", A: "given", U: adm, B: "JRWPASD"},
+					wOp{K: "sub", S: hs, T: "g0", A: "JRWPASD"},
+					wOp{K: "set", S: hs, T: "g0", A: "given", U: 0, B: gPick(rt, []string{"JRWPASD", "JRWPAS", "JRWP", "N", "RWPASDO"}, "demote")})
+			}
+		case x < 13:
 			// ownership transfer attempt: grant by the (original) owner, optionally accepted
 			tgt := rapid.IntRange(1, 2).Draw(rt, "heir")
 			p.Ops = append(p.Ops, wOp{K: "set", S: 0, T: "g0", A: "given", U: tgt, B: gPick(rt, []string{"JRWPASDO", "JRWPSO", "O"}, "grant")})
@@ -86,7 +114,7 @@ func c06Gen(rt *rapid.T) wProg {
 					}
 				}
 			}
-		case x < 16:
+		case x < 19:
 			p.Ops = append(p.Ops, wOp{K: "sub", S: s, T: topicFor(s), A: gPick(rt, gOwnWant, "want")})
 		case x < 38:
 			p.Ops = append(p.Ops, wOp{K: "set", S: s, T: gPick(rt, []string{"g0", "g0", "g0", "p1", "p0", "me"}, "t"), A: "given",
